@@ -200,4 +200,217 @@ theorem reSub_tokenwise (key val : List Char) (hk : ∀ c ∈ key, isIdent c = t
           List.flatMap_cons, render1, ihT]
         simp
 
+/-! ### a whole macro list: sequential passes = simultaneous token-wise replacement -/
+
+/-- what one pass does to a token, as tokens -/
+def retok (key val : List Char) : Tok → List Tok
+  | .text c => [.text c]
+  | .use name => if name = key then val.map .text else [.use name]
+
+/-- canonical token lists (what `tokenize` produces on a text in which no macro use is directly
+followed by another `$`): text characters are not `$`, names consist of identifier characters,
+and a use is followed by nothing or by a non-identifier text character -/
+def Canon : List Tok → Prop
+  | [] => True
+  | .text c :: rest => c ≠ '$' ∧ Canon rest
+  | .use name :: rest =>
+    (∀ c ∈ name, isIdent c = true) ∧
+    (match rest with
+     | [] => True
+     | .text d :: _ => isIdent d = false
+     | .use _ :: _ => False) ∧ Canon rest
+
+theorem tokenize_text_prefix (val R : List Char) (hv : ∀ c ∈ val, c ≠ '$') :
+    tokenizeAux 0 (val ++ R) = val.map .text ++ tokenizeAux 0 R := by
+  induction val with
+  | nil => rfl
+  | cons c cs ih =>
+    have hc := hv c (by simp)
+    simp only [List.cons_append, tokenizeAux, hc, if_false, List.map_cons]
+    rw [ih (fun d hd => hv d (by simp [hd]))]
+
+theorem flatMap_head_text (key val : List Char) (d : Char) (rest : List Tok) :
+    ((Tok.text d :: rest).flatMap (render1 key val)) = d :: rest.flatMap (render1 key val) := by
+  simp [List.flatMap_cons, render1]
+
+/-- re-tokenising the result of one pass -/
+theorem tokenize_render1 (key val : List Char) (hv : ∀ c ∈ val, c ≠ '$') (toks : List Tok) (hc : Canon toks) :
+    tokenizeAux 0 (toks.flatMap (render1 key val)) = toks.flatMap (retok key val) := by
+  induction toks with
+  | nil => rfl
+  | cons t rest ih =>
+    cases t with
+    | text c =>
+      simp only [Canon] at hc
+      simp only [List.flatMap_cons, render1, retok, List.cons_append, List.nil_append, tokenizeAux, hc.1,
+        if_false]
+      rw [ih hc.2]
+    | use name =>
+      simp only [Canon] at hc
+      obtain ⟨hn, hnext, hrest⟩ := hc
+      by_cases hk : name = key
+      · simp only [List.flatMap_cons, render1, retok, hk, if_true]
+        rw [tokenize_text_prefix _ _ hv, ih hrest]
+      · simp only [List.flatMap_cons, render1, retok, hk, if_false, List.cons_append, List.nil_append,
+          tokenizeAux, if_true]
+        have htw : (name ++ rest.flatMap (render1 key val)).takeWhile isIdent = name := by
+          apply takeWhile_prefix _ _ _ hn
+          cases rest with
+          | nil => simp
+          | cons t' rest' =>
+            cases t' with
+            | text d => rw [flatMap_head_text]; simpa using hnext
+            | use n' => exact absurd hnext (by simp)
+        rw [htw, tokenizeAux_drop, List.drop_left, ih hrest]
+
+theorem canon_text_prefix (val : List Char) (X : List Tok) (hv : ∀ c ∈ val, c ≠ '$') (hX : Canon X) :
+    Canon (val.map .text ++ X) := by
+  induction val with
+  | nil => exact hX
+  | cons c cs ih =>
+    simp only [List.map_cons, List.cons_append, Canon]
+    exact ⟨hv c (by simp), ih (fun d hd => hv d (by simp [hd]))⟩
+
+theorem canon_retok (key val : List Char) (hv : ∀ c ∈ val, c ≠ '$') (toks : List Tok) (hc : Canon toks) :
+    Canon (toks.flatMap (retok key val)) := by
+  induction toks with
+  | nil => trivial
+  | cons t rest ih =>
+    cases t with
+    | text c =>
+      simp only [Canon] at hc
+      simp only [List.flatMap_cons, retok, List.cons_append, List.nil_append, Canon]
+      exact ⟨hc.1, ih hc.2⟩
+    | use name =>
+      simp only [Canon] at hc
+      obtain ⟨hn, hnext, hrest⟩ := hc
+      by_cases hk : name = key
+      · simp only [List.flatMap_cons, retok, hk, if_true]
+        exact canon_text_prefix _ _ hv (ih hrest)
+      · simp only [List.flatMap_cons, retok, hk, if_false, List.cons_append, List.nil_append, Canon]
+        refine ⟨hn, ?_, ih hrest⟩
+        cases rest with
+        | nil => trivial
+        | cons t' rest' =>
+          cases t' with
+          | text d => simpa [List.flatMap_cons, retok] using hnext
+          | use n' => exact absurd hnext (by simp)
+
+theorem flatMap_congr' {α β : Type} {f g : α → List β} {l : List α} (h : ∀ x ∈ l, f x = g x) :
+    l.flatMap f = l.flatMap g := by
+  induction l with
+  | nil => rfl
+  | cons x xs ih =>
+    simp only [List.flatMap_cons, h x (by simp), ih (fun y hy => h y (by simp [hy]))]
+
+theorem flatMap_text (f : Tok → List Char) (hf : ∀ c, f (.text c) = [c]) (val : List Char) :
+    (val.map Tok.text).flatMap f = val := by
+  induction val with
+  | nil => rfl
+  | cons c cs ih => simp [List.flatMap_cons, hf, ih]
+
+/-- **sequential passes = simultaneous token-wise replacement**, for canonical bodies and
+macro values without `$` -/
+theorem substAll_tokenwise (macros : List (List Char × List Char))
+    (hk : ∀ kv ∈ macros, ∀ c ∈ kv.1, isIdent c = true)
+    (hv : ∀ kv ∈ macros, ∀ c ∈ stripBraces kv.2, c ≠ '$')
+    (body : List Char) (hc : Canon (tokenize body)) :
+    substAll reSub macros body = substTokenwise macros body := by
+  induction macros generalizing body with
+  | nil =>
+    simp only [substAll, List.foldl_nil, substTokenwise]
+    -- round trip: rendering the tokens of a text gives the text back
+    have rt : ∀ n, ∀ s : List Char, s.length = n → (tokenizeAux 0 s).flatMap (renderTok []) = s := by
+      intro n
+      induction n using Nat.strongRecOn with
+      | _ n ih =>
+        intro s hn
+        cases s with
+        | nil => rfl
+        | cons c rest =>
+          by_cases hc' : c = '$'
+          · subst hc'
+            have hsplit := takeWhile_append_dropWhile' isIdent rest
+            have hlen : (rest.dropWhile isIdent).length < n := by
+              have : (rest.takeWhile isIdent ++ rest.dropWhile isIdent).length = rest.length := by rw [hsplit]
+              simp only [List.length_append] at this
+              simp only [List.length_cons] at hn
+              omega
+            simp only [tokenizeAux, if_true, List.flatMap_cons, renderTok, lookupMacro]
+            rw [tokenizeAux_drop, drop_takeWhile_length, ih _ hlen _ rfl]
+            simp [hsplit]
+          · have hlen : rest.length < n := by simp only [List.length_cons] at hn; omega
+            simp only [tokenizeAux, hc', if_false, List.flatMap_cons, renderTok, ih _ hlen rest rfl]
+            simp
+    exact (rt _ body rfl).symm
+  | cons kv ms ih =>
+    obtain ⟨k, v⟩ := kv
+    have hk1 := hk (k, v) (by simp)
+    have hv1 := hv (k, v) (by simp)
+    simp only [substAll, List.foldl_cons] at ih ⊢
+    have h1 := reSub_tokenwise k (stripBraces v) hk1 body
+    have ht : tokenize (reSub k (stripBraces v) body) = (tokenize body).flatMap (retok k (stripBraces v)) := by
+      rw [h1]; exact tokenize_render1 k (stripBraces v) hv1 _ hc
+    have hc2 : Canon (tokenize (reSub k (stripBraces v) body)) := by
+      rw [ht]; exact canon_retok k (stripBraces v) hv1 _ hc
+    rw [ih (fun kv h => hk kv (by simp [h])) (fun kv h => hv kv (by simp [h])) _ hc2]
+    simp only [substTokenwise, ht, List.flatMap_assoc]
+    apply flatMap_congr'
+    intro t _
+    cases t with
+    | text c => simp [retok, renderTok]
+    | use name =>
+      by_cases hkn : name = k
+      · subst hkn
+        simp only [retok, if_true, renderTok, lookupMacro]
+        exact flatMap_text _ (fun c => rfl) _
+      · have hkn' : ¬ k = name := fun e => hkn e.symm
+        simp [retok, hkn, renderTok, lookupMacro, hkn']
+
+/-- no macro use is directly followed by another `$` -/
+def NoAdjacentUses : List Tok → Prop
+  | [] => True
+  | .text _ :: rest => NoAdjacentUses rest
+  | .use _ :: rest =>
+    (match rest with
+     | .use _ :: _ => False
+     | _ => True) ∧ NoAdjacentUses rest
+
+/-- the tokens of a text are canonical as soon as no two uses are adjacent -/
+theorem canon_tokenize (s : List Char) (h : NoAdjacentUses (tokenize s)) : Canon (tokenize s) := by
+  unfold tokenize at h ⊢
+  generalize hn : s.length = n
+  induction n using Nat.strongRecOn generalizing s with
+  | _ n ih =>
+    cases s with
+    | nil => trivial
+    | cons c rest =>
+      by_cases hc : c = '$'
+      · subst hc
+        have hsplit := takeWhile_append_dropWhile' isIdent rest
+        have hlen : (rest.dropWhile isIdent).length < n := by
+          have : (rest.takeWhile isIdent ++ rest.dropWhile isIdent).length = rest.length := by rw [hsplit]
+          simp only [List.length_append] at this
+          simp only [List.length_cons] at hn
+          omega
+        simp only [tokenizeAux, if_true] at h ⊢
+        rw [tokenizeAux_drop, drop_takeWhile_length] at h ⊢
+        simp only [NoAdjacentUses] at h
+        simp only [Canon]
+        refine ⟨takeWhile_all isIdent rest, ?_, ih _ hlen _ h.2 rfl⟩
+        have hd := dropWhile_head isIdent rest
+        cases hdw : rest.dropWhile isIdent with
+        | nil => simp [tokenizeAux]
+        | cons d ds =>
+          rw [hdw] at hd h
+          by_cases hd' : d = '$'
+          · subst hd'
+            simp [tokenizeAux] at h
+          · simp only [tokenizeAux, hd', if_false]
+            exact hd
+      · have hlen : rest.length < n := by simp only [List.length_cons] at hn; omega
+        simp only [tokenizeAux, hc, if_false] at h ⊢
+        simp only [NoAdjacentUses] at h
+        exact ⟨hc, ih _ hlen rest h rfl⟩
+
 end NQ.AsmText
